@@ -11,9 +11,33 @@ OPS = ["+", "-", "*", "/", "%", "<", "<=", ">", ">=", "==", "!=", "&", "|", "xor
 KINDS = ["int", "bigint", "float", "byte"]
 
 
-def cell_program(op, lk, a, rk, b):
+CARRIERS = ["element", "field", "parameter", "captured", "result", "map-value", "optional"]
+
+
+def cell_program(op, lk, a, rk, b, carrier="variable"):
+    """carrier: how the two operands reach the operator (a plain variable, a list element, an object field, a parameter, a variable
+    captured by a closure, a function result, a map value, an unwrapped optional)"""
     lines = N.construct(lk, a, "a", "za") + N.construct(rk, b, "b", "zb")
-    lines += ["print a", "print b", f"print a {op} b"]
+    lines += ["print a", "print b"]
+    if carrier == "variable":
+        lines += [f"print a {op} b"]
+    elif carrier == "element":
+        lines += [f"la: [{lk}...] = [a]", f"lb: [{rk}...] = [b, b]", f"print la[0] {op} lb[1]"]
+    elif carrier == "field":
+        lines = ["class P {", f"\tx: {lk}", f"\ty: {rk}", f"\tconstructor(self, x: {lk}, y: {rk}) {{", "\t\tself.x = x", "\t\tself.y = y", "\t}",
+                 "\tfn both(self) {", f"\t\tprint self.x {op} self.y", "\t}", "}"] + lines + ["pp = P(a, b)", f"print pp.x {op} pp.y", "pp.both()"]
+    elif carrier == "parameter":
+        lines += [f"fp = fn(p: {lk}, q: {rk}) {{", f"\tprint p {op} q", "}", "fp(a, b)"]
+    elif carrier == "captured":
+        lines += ["fc = fn() {", f"\tprint a {op} b", "}", "fc()"]
+    elif carrier == "result":
+        lines += [f"ra = fn() -> {lk} {{", "\treturn a", "}", f"rb = fn() -> {rk} {{", "\treturn b", "}", f"print ra() {op} rb()"]
+    elif carrier == "map-value":
+        lines += [f"ma = map[str, {lk}]", 'ma["k"] = a', f"mb = map[str, {rk}]", 'mb["k"] = b', f'print (get ma["k"]) {op} (get mb["k"])']
+    elif carrier == "optional":
+        lines += [f"oa: {lk}? = a", f"ob: {rk}? = b", f"print (get oa) {op} (get ob)"]
+    else:
+        raise ValueError(carrier)
     return "\n".join(lines) + "\n"
 
 
@@ -43,7 +67,8 @@ class C05(Check):
     id = "C05"
     level = "exploration"
     rule = ("every cell (operator in 16 binary operators, left kind, right kind in {int,bigint,float,byte}, left value, "
-            "right value from the per-kind boundary sets), operands reaching the operator through run-time variables; "
+            "right value from the per-kind boundary sets), operands reaching the operator through run-time variables and - for 2 (thorough 3) values per kind - "
+            "through 7 other carriers (list element, object field incl. inside a method, parameter, captured variable, function result, map value, unwrapped optional); "
             "unary minus on every int/bigint/float value and `!` on both booleans.  Non-trivial = the compiler accepts the "
             "cell; distinct = distinct (op, kinds, values).")
     assumptions = ["dev profile (integer-overflow checks on), as the repository's own suite",
@@ -70,13 +95,22 @@ class C05(Check):
             yield ("un", "!", "bool", 0)
             yield ("un", "!", "bool", 1)
 
-        ls = [("L0-unary", list(unary())), ("L1-3-values", list(cells(3))), (f"L2-{nv}-values", cells(nv))]
+        def carried(vals_n):
+            for c in cells(vals_n):
+                for car in CARRIERS:
+                    yield ("car", car) + c[1:]
+
+        ls = [("L0-unary", list(unary())), ("L1-3-values", list(cells(3))), ("L1b-3-values-through-7-carriers", carried(3 if tier == "thorough" else 2)),
+              (f"L2-{nv}-values", cells(nv))]
         return ls
 
     def describe(self, case):
         if case[0] == "un":
             v = N.VALUES[case[2]][case[3]] if case[2] != "bool" else bool(case[3])
             return {"op": case[1], "kind": case[2], "value": repr(v)}
+        if case[0] == "car":
+            _, car, op, lk, a, rk, b = case
+            return {"op": op, "lkind": lk, "lvalue": repr(N.VALUES[lk][a]), "rkind": rk, "rvalue": repr(N.VALUES[rk][b]), "carrier": car}
         _, op, lk, a, rk, b = case
         return {"op": op, "lkind": lk, "lvalue": repr(N.VALUES[lk][a]), "rkind": rk, "rvalue": repr(N.VALUES[rk][b])}
 
@@ -93,9 +127,13 @@ class C05(Check):
             operands = [N.typed(k, a)]
             static_ok = False
         else:
+            car = "variable"
+            if case[0] == "car":
+                car = case[1]
+                case = ("bin",) + tuple(case[2:])
             _, op, lk, ai, rk, bi = case
             a, b = N.VALUES[lk][ai], N.VALUES[rk][bi]
-            src = cell_program(op, lk, a, rk, b)
+            src = cell_program(op, lk, a, rk, b, car)
             static_ok = False
             try:
                 exp = N.binop(op, lk, a, rk, b)
@@ -140,11 +178,11 @@ class C05(Check):
                 bad("no-failure", f"{desc}: expected a failure ({exp}), got value {got}")
             outcome = f"fail-{res.cls}"
         else:
-            want = [N.typed(*exp)]
+            want = [N.typed(*exp)] * (2 if (case[0] == "bin" and car == "field") else 1)
             if res.exit != 0:
                 bad("unexpected-failure", f"{desc}: expected {want[0]}, execution failed ({res.cls}): "
                                           f"{driver.classify_failure(res)}")
-            elif exp[0] == "float" and len(got) == 1 and same_float(got[0], exp[1]):
+            elif exp[0] == "float" and len(got) == len(want) and all(same_float(g, exp[1]) for g in got):
                 pass
             elif got != want:
                 kind = "wrong-kind" if got and got[0].split(":")[0] != want[0].split(":")[0] else "wrong-value"
